@@ -5,6 +5,7 @@ from ..core import rng_for, rand_digits, M64, ndig, Cmd, U, I, PANIC, Problem, c
 from ..arith import tok
 
 B = 1 << 64
+THOROUGH_SEEDS = 8   # the thorough tier repeats its staged workload over this many derived seeds
 RULE = ('moduli of 1..24 digits: odd (Montgomery) and even (square-and-multiply), top digit 1 / random / MAX, all-ones '
         'digits, 2^k-c, 1, 2, 2^k, 2^k*odd; bases shorter / equal length & >= m / longer than m, 0, 1, m-1, m, m+1; '
         'exponents 0,1,2, 2^k, 2^k-1, zero 4-bit windows, multi-digit with zero low digits; BigInt sign combinations, '
